@@ -92,20 +92,33 @@ theorem selectVector_ok {d : NdData} {iv : List Int} {vs : List Rat} (h : select
 
 /-! ### a dimension that carries a link -/
 
-/-- the descriptor `dn` has a link group `ln`, whose first (only) entry is the node `t`, with the
-index vector `iv` -/
-def Linked (s : DState) (dn t : Nat) (iv : List Int) : Prop :=
-  ∃ ln nm, s.g.child? dn "link" = some ln ∧ (s.g.links ln)[0]? = some (nm, t) ∧ look s.index ln = some iv
+/-- the descriptor `dn` has a link group `ln` of type `dotype` ("DataArray" / "DataFrame"), whose first
+(only) entry is the node `t`, with the index `iv` -/
+def LinkedAs (s : DState) (dn t : Nat) (dotype : String) (iv : List Int) : Prop :=
+  ∃ ln nm, s.g.child? dn "link" = some ln ∧ (s.g.links ln)[0]? = some (nm, t) ∧ look s.index ln = some iv ∧
+    s.g.getAttr ln "data_object_type" = some dotype
+
+/-- linked to the array node `t` with the index vector `iv` -/
+def Linked (s : DState) (dn t : Nat) (iv : List Int) : Prop := LinkedAs s dn t "DataArray" iv
+
+theorem hasLink_of_linkedAs {s : DState} {dn t : Nat} {ty : String} {iv : List Int} (h : LinkedAs s dn t ty iv) :
+    hasLink s.g dn = true := by
+  obtain ⟨ln, nm, h1, _, _, _⟩ := h
+  simp [hasLink, hasChild_eq, h1]
 
 theorem hasLink_of_linked {s : DState} {dn t : Nat} {iv : List Int} (h : Linked s dn t iv) :
-    hasLink s.g dn = true := by
-  obtain ⟨ln, nm, h1, _, _⟩ := h
-  simp [hasLink, hasChild_eq, h1]
+    hasLink s.g dn = true := hasLink_of_linkedAs h
+
+theorem linkType_of_linkedAs {s : DState} {dn t : Nat} {ty : String} {iv : List Int} (h : LinkedAs s dn t ty iv) :
+    linkType s.g dn = ty := by
+  obtain ⟨ln, nm, h1, _, _, h4⟩ := h
+  simp [linkType, h1, h4]
 
 theorem linkValues_linked {s : DState} {dn t : Nat} {iv : List Int} {d : NdData}
     (h : Linked s dn t iv) (hd : dataOf s t = some d) : linkValues s dn = selectVector d iv := by
-  obtain ⟨ln, nm, h1, h2, h3⟩ := h
-  simp [linkValues, linkTarget, h1, h2, h3, hd]
+  have hty := linkType_of_linkedAs h
+  obtain ⟨ln, nm, h1, h2, h3, _⟩ := h
+  simp [linkValues, linkTarget, hty, h1, h2, h3, hd]
 
 theorem readTicks_linked {s : DState} {dn t : Nat} {iv : List Int} {d : NdData}
     (h : Linked s dn t iv) (hd : dataOf s t = some d) : readTicks s dn = selectVector d iv := by
@@ -119,8 +132,42 @@ theorem readLabels_linked {s : DState} {dn t : Nat} {iv : List Int} {d : NdData}
 theorem readDimAttr_linked {s : DState} {dn t : Nat} {iv : List Int} (h : Linked s dn t iv)
     (hk : kindOf s.g dn = kDimRange) (a : String) : readDimAttr s dn a = .ok (s.g.getAttr t a) := by
   have hl := hasLink_of_linked h
-  obtain ⟨ln, nm, h1, h2, _⟩ := h
-  simp [readDimAttr, hk, hl, linkTarget, h1, h2]
+  have hty := linkType_of_linkedAs h
+  obtain ⟨ln, nm, h1, h2, _, _⟩ := h
+  simp [readDimAttr, hk, hl, hty, linkTarget, h1, h2]
+
+/-! ### a dimension linked to a column of a data frame -/
+
+theorem linkColumn_of_linkedAs {s : DState} {dn t : Nat} {ty : String} {c : Nat}
+    (h : LinkedAs s dn t ty [(c : Int)]) : linkColumn s dn = some c := by
+  obtain ⟨ln, nm, h1, _, h3, _⟩ := h
+  simp [linkColumn, h1, h3]
+
+theorem linkValues_frame {s : DState} {dn t c : Nat} {fd : FrameData}
+    (h : LinkedAs s dn t "DataFrame" [(c : Int)]) (hf : frameOf s t = some fd) : linkValues s dn = column fd c := by
+  have hty := linkType_of_linkedAs h
+  have hc := linkColumn_of_linkedAs h
+  obtain ⟨ln, nm, h1, h2, _, _⟩ := h
+  simp [linkValues, linkTarget, hty, hc, h1, h2, hf]
+
+theorem readTicks_frame {s : DState} {dn t c : Nat} {fd : FrameData}
+    (h : LinkedAs s dn t "DataFrame" [(c : Int)]) (hf : frameOf s t = some fd) : readTicks s dn = column fd c := by
+  simp [readTicks, hasLink_of_linkedAs h, linkValues_frame h hf]
+
+theorem readLabels_frame {s : DState} {dn t c : Nat} {fd : FrameData}
+    (h : LinkedAs s dn t "DataFrame" [(c : Int)]) (hf : frameOf s t = some fd) :
+    readLabels s dn = (column fd c).map Labels.nums := by
+  simp [readLabels, hasLink_of_linkedAs h, linkValues_frame h hf]
+
+theorem readDimAttr_frame {s : DState} {dn t c : Nat} {fd : FrameData}
+    (h : LinkedAs s dn t "DataFrame" [(c : Int)]) (hk : kindOf s.g dn = kDimRange) (hf : frameOf s t = some fd)
+    {u : Option String} {n : String} (hu : fd.units[c]? = some u) (hn : fd.cols[c]? = some n) :
+    readDimAttr s dn "unit" = .ok u ∧ readDimAttr s dn "label" = .ok (some n) := by
+  have hl := hasLink_of_linkedAs h
+  have hty := linkType_of_linkedAs h
+  have hc := linkColumn_of_linkedAs h
+  obtain ⟨ln, nm, h1, h2, _, _⟩ := h
+  constructor <;> simp [readDimAttr, hk, hl, hty, hc, linkTarget, h1, h2, hf, hu, hn]
 
 /-! ### data writes -/
 
@@ -157,17 +204,18 @@ theorem arrayAt_ok {s : DState} {q : Path} {a : Nat} (h : arrayAt s q = .ok a) :
 
 /-! ### making a link -/
 
-theorem createLinkGroup_spec (s : DState) (dn t : Nat) (tid : String) (iv : List Int)
+theorem createLinkGroup_spec (s : DState) (dn t : Nat) (tid ty : String) (iv : List Int)
     (hdn : (s.g.node? dn).isSome) (hnone : s.g.child? dn "link" = none)
     (hfresh : s.g.node? s.g.nextKey = none) :
-    (createLinkGroup s dn t tid iv).g.child? dn "link" = some s.g.nextKey ∧
-    (createLinkGroup s dn t tid iv).g.links s.g.nextKey = [(tid, t)] ∧
-    look (createLinkGroup s dn t tid iv).index s.g.nextKey = some iv ∧
-    (∀ k m, k ≠ dn → k ≠ s.g.nextKey → (createLinkGroup s dn t tid iv).g.child? k m = s.g.child? k m) ∧
-    (∀ m, m ≠ "link" → (createLinkGroup s dn t tid iv).g.child? dn m = s.g.child? dn m) ∧
-    (∀ k a, k ≠ s.g.nextKey → (createLinkGroup s dn t tid iv).g.getAttr k a = s.g.getAttr k a) ∧
-    (createLinkGroup s dn t tid iv).data = s.data ∧
-    (createLinkGroup s dn t tid iv).g.getAttr s.g.nextKey "~kind" = none := by
+    (createLinkGroup s dn t tid ty iv).g.child? dn "link" = some s.g.nextKey ∧
+    (createLinkGroup s dn t tid ty iv).g.links s.g.nextKey = [(tid, t)] ∧
+    look (createLinkGroup s dn t tid ty iv).index s.g.nextKey = some iv ∧
+    (∀ k m, k ≠ dn → k ≠ s.g.nextKey → (createLinkGroup s dn t tid ty iv).g.child? k m = s.g.child? k m) ∧
+    (∀ m, m ≠ "link" → (createLinkGroup s dn t tid ty iv).g.child? dn m = s.g.child? dn m) ∧
+    (∀ k a, k ≠ s.g.nextKey → (createLinkGroup s dn t tid ty iv).g.getAttr k a = s.g.getAttr k a) ∧
+    ((createLinkGroup s dn t tid ty iv).data = s.data ∧ (createLinkGroup s dn t tid ty iv).frames = s.frames) ∧
+    (createLinkGroup s dn t tid ty iv).g.getAttr s.g.nextKey "~kind" = none ∧
+    (createLinkGroup s dn t tid ty iv).g.getAttr s.g.nextKey "data_object_type" = some ty := by
   have hne : dn ≠ s.g.nextKey := by
     intro e; rw [e, hfresh] at hdn; simp at hdn
   have heg : (s.g.freshId).1.ensureGroup dn "link" =
@@ -188,7 +236,7 @@ theorem createLinkGroup_spec (s : DState) (dn t : Nat) (tid : String) (iv : List
     · rw [node?_isSome_newNode]; simp [node?_freshId, hdn]
     · rw [child?_newNode]; exact hnone
   generalize hG4 : (G2.setAttr s.g.nextKey "entity_id" (some (s.g.freshId).2)).setAttr s.g.nextKey
-      "data_object_type" (some "DataArray") = G4
+      "data_object_type" (some ty) = G4
   have hG4links : ∀ k, G4.links k = G2.links k := by
     intro k; rw [← hG4, links_setAttr, links_setAttr]
   have hG4child : ∀ k m, G4.child? k m = G2.child? k m := by
@@ -208,7 +256,7 @@ theorem createLinkGroup_spec (s : DState) (dn t : Nat) (tid : String) (iv : List
   · intro m hm
     rw [child?_addLink_ne _ _ _ hne, hG4child, ← hG2, child?_addLink_name_ne _ _ _ _ hm, child?_newNode]
     rfl
-  · refine ⟨?_, trivial, ?_⟩
+  · refine ⟨?_, by simp, ?_, ?_⟩
     · intro k a hk
       rw [getAttr_addLink, ← hG4, getAttr_setAttr_ne _ _ _ hk, getAttr_setAttr_ne _ _ _ hk, ← hG2,
         getAttr_addLink, getAttr_newNode]
@@ -216,11 +264,97 @@ theorem createLinkGroup_spec (s : DState) (dn t : Nat) (tid : String) (iv : List
     · rw [getAttr_addLink, ← hG4, getAttr_setAttr_attr_ne _ _ _ _ (by decide),
         getAttr_setAttr_attr_ne _ _ _ _ (by decide), ← hG2, getAttr_addLink, getAttr_newNode]
       exact getAttr_of_node?_none hfresh _
+    · rw [getAttr_addLink, ← hG4]
+      apply getAttr_setAttr_self
+      rw [node?_isSome_setAttr]; exact hG2node_nk
 
 theorem node?_none_of_isSome_eq {g g' : Graph} {k : Nat} (h : (g'.node? k).isSome = (g.node? k).isSome)
     (hn : g.node? k = none) : g'.node? k = none := by
   rw [hn] at h
   cases h' : g'.node? k <;> simp_all
+
+/-- what `attachLink` (the common tail of `link_data_array` / `link_data_frame`) leaves behind -/
+theorem attachLink_spec (s : DState) (dn t : Nat) (tid ty : String) (iv : List Int)
+    (hk : kindOf s.g dn = kDimRange ∨ kindOf s.g dn = kDimSet)
+    (hfresh : s.g.node? s.g.nextKey = none) :
+    LinkedAs (attachLink s dn t tid ty iv) dn t ty iv ∧
+      (kindOf s.g dn = kDimRange → (attachLink s dn t tid ty iv).g.hasChild dn "ticks" = false) ∧
+      kindOf (attachLink s dn t tid ty iv).g dn = kindOf s.g dn ∧
+      (∀ k m, k ≠ dn → k ≠ s.g.nextKey → (attachLink s dn t tid ty iv).g.child? k m = s.g.child? k m) ∧
+      (∀ k, k ≠ s.g.nextKey → kindOf (attachLink s dn t tid ty iv).g k = kindOf s.g k) ∧
+      kindOf (attachLink s dn t tid ty iv).g s.g.nextKey = "" ∧
+      (attachLink s dn t tid ty iv).data = s.data ∧ (attachLink s dn t tid ty iv).frames = s.frames := by
+  have hdnnode : (s.g.node? dn).isSome := by
+    apply kindOf_ne_empty_node
+    rcases hk with e | e <;> rw [e] <;> decide
+  have hdnnk : dn ≠ s.g.nextKey := by
+    intro e; rw [e, hfresh] at hdnnode; simp at hdnnode
+  unfold attachLink
+  dsimp only
+  -- the graph after the old link was removed
+  generalize hg1 : (if hasLink s.g dn = true then s.g.delLink dn "link" else s.g) = g1
+  have hg1none : g1.child? dn "link" = none := by
+    rw [← hg1]
+    by_cases hl : hasLink s.g dn = true
+    · simp only [hl, ↓reduceIte]; exact child?_delLink_self _ _ _
+    · have : s.g.hasChild dn "link" = false := by simpa [hasLink] using hl
+      simp only [hl]
+      rw [hasChild_eq] at this
+      cases hc : s.g.child? dn "link" <;> simp_all
+  have hg1nk : g1.nextKey = s.g.nextKey := by
+    rw [← hg1]; split <;> rfl
+  have hg1node : ∀ k, (g1.node? k).isSome = (s.g.node? k).isSome := by
+    intro k; rw [← hg1]; split
+    · exact node?_isSome_delLink _ _ _ _
+    · rfl
+  have hg1attr : ∀ k a, g1.getAttr k a = s.g.getAttr k a := by
+    intro k a; rw [← hg1]; split
+    · exact getAttr_delLink _ _ _ _ _
+    · rfl
+  have hg1child_ne : ∀ k m, k ≠ dn → g1.child? k m = s.g.child? k m := by
+    intro k m hkne; rw [← hg1]; split
+    · exact child?_delLink_ne _ _ hkne _
+    · rfl
+  have hfresh1 : g1.node? g1.nextKey = none := by
+    rw [hg1nk]; exact node?_none_of_isSome_eq (hg1node _) hfresh
+  obtain ⟨c1, c2, c3, c4, _, c6, ⟨c7, c7'⟩, c8, c9⟩ :=
+    createLinkGroup_spec { s with g := g1 } dn t tid ty iv (by rw [hg1node]; exact hdnnode) hg1none hfresh1
+  simp only [hg1nk] at c1 c2 c3 c4 c6 c8 c9
+  generalize hs1 : createLinkGroup { s with g := g1 } dn t tid ty iv = s1 at c1 c2 c3 c4 c6 c7 c7' c8 c9 ⊢
+  have hkind1 : kindOf s1.g dn = kindOf s.g dn := by
+    unfold kindOf; rw [c6 dn _ hdnnk, hg1attr]
+  by_cases hfin : (kindOf s.g dn == kDimRange && s1.g.hasChild dn "ticks") = true
+  · simp only [hfin, ↓reduceIte]
+    refine ⟨⟨s.g.nextKey, tid, ?_, ?_, c3, ?_⟩, ?_, ?_, ?_, ?_, ?_, c7, c7'⟩
+    · show (s1.g.delLink dn "ticks").child? dn "link" = _
+      rw [child?_delLink_name_ne _ _ _ (by decide)]; exact c1
+    · show ((s1.g.delLink dn "ticks").links s.g.nextKey)[0]? = _
+      rw [links_delLink_ne _ _ (Ne.symm hdnnk), c2]; rfl
+    · show (s1.g.delLink dn "ticks").getAttr s.g.nextKey "data_object_type" = _
+      rw [getAttr_delLink]; exact c9
+    · intro _
+      show (s1.g.delLink dn "ticks").hasChild dn "ticks" = false
+      rw [hasChild_eq, child?_delLink_self]; rfl
+    · show kindOf (s1.g.delLink dn "ticks") dn = _
+      unfold kindOf; rw [getAttr_delLink]; exact hkind1
+    · intro k m h1 h2
+      show (s1.g.delLink dn "ticks").child? k m = _
+      rw [child?_delLink_ne _ _ h1, c4 k m h1 h2, hg1child_ne k m h1]
+    · intro k h2
+      show kindOf (s1.g.delLink dn "ticks") k = _
+      unfold kindOf; rw [getAttr_delLink, c6 k _ h2, hg1attr]
+    · show kindOf (s1.g.delLink dn "ticks") s.g.nextKey = _
+      unfold kindOf; rw [getAttr_delLink, c8]; rfl
+  · simp only [hfin, Bool.false_eq_true, ↓reduceIte]
+    refine ⟨⟨s.g.nextKey, tid, c1, by rw [c2]; rfl, c3, c9⟩, ?_, hkind1, ?_, ?_, ?_, c7, c7'⟩
+    · intro hr
+      rw [hr] at hfin
+      simpa using hfin
+    · intro k m h1 h2
+      rw [c4 k m h1 h2, hg1child_ne k m h1]
+    · intro k h2
+      unfold kindOf; rw [c6 k _ h2, hg1attr]
+    · unfold kindOf; rw [c8]; rfl
 
 /-- what an accepted `link_data_array` leaves behind -/
 theorem linkDataArray_linked {s s' : DState} {p : Path} {i t dn : Nat} {iv : List Int}
@@ -251,10 +385,8 @@ theorem linkDataArray_linked {s s' : DState} {p : Path} {i t dn : Nat} {iv : Lis
   have hrank : d.shape.length = iv.length := Classical.byContradiction fun hc => by simp [hc] at h
   have hci : checkIndex iv = true := Classical.byContradiction fun hc => by simp [hrank, hc] at h
   simp only [hrank, hci, bne_self_eq_false, Bool.not_true, Bool.false_eq_true, ↓reduceIte] at h
-  -- the nodes involved
-  have hdnnode : (s.g.node? dn).isSome := by
-    apply kindOf_ne_empty_node
-    rcases hk with e | e <;> rw [e] <;> decide
+  have hs' := (Except.ok.inj h).symm
+  subst hs'
   have htnode : (s.g.node? t).isSome := by
     apply kindOf_ne_empty_node; rw [hkt]; decide
   have htdn : t ≠ dn := by
@@ -262,85 +394,64 @@ theorem linkDataArray_linked {s s' : DState} {p : Path} {i t dn : Nat} {iv : Lis
     rcases hk with e' | e' <;> rw [e'] at hkt <;> revert hkt <;> decide
   have htnk : t ≠ s.g.nextKey := by
     intro e; rw [e, hfresh] at htnode; simp at htnode
-  have hdnnk : dn ≠ s.g.nextKey := by
-    intro e; rw [e, hfresh] at hdnnode; simp at hdnnode
-  -- the graph after the old link was removed
-  generalize hg1 : (if hasLink s.g dn = true then s.g.delLink dn "link" else s.g) = g1 at h
-  have hg1none : g1.child? dn "link" = none := by
-    rw [← hg1]
-    by_cases hl : hasLink s.g dn = true
-    · simp only [hl, ↓reduceIte]; exact child?_delLink_self _ _ _
-    · have : s.g.hasChild dn "link" = false := by simpa [hasLink] using hl
-      simp only [hl]
-      rw [hasChild_eq] at this
-      cases hc : s.g.child? dn "link" <;> simp_all
-  have hg1nk : g1.nextKey = s.g.nextKey := by
-    rw [← hg1]; split <;> rfl
-  have hg1node : ∀ k, (g1.node? k).isSome = (s.g.node? k).isSome := by
-    intro k; rw [← hg1]; split
-    · exact node?_isSome_delLink _ _ _ _
-    · rfl
-  have hg1attr : ∀ k a, g1.getAttr k a = s.g.getAttr k a := by
-    intro k a; rw [← hg1]; split
-    · exact getAttr_delLink _ _ _ _ _
-    · rfl
-  have hg1child_ne : ∀ k m, k ≠ dn → g1.child? k m = s.g.child? k m := by
-    intro k m hkne; rw [← hg1]; split
-    · exact child?_delLink_ne _ _ hkne _
-    · rfl
-  have hg1child_dn : ∀ m, m ≠ "link" → g1.child? dn m = s.g.child? dn m := by
-    intro m hm; rw [← hg1]; split
-    · exact child?_delLink_name_ne _ _ _ hm
-    · rfl
-  have hfresh1 : g1.node? g1.nextKey = none := by
-    rw [hg1nk]; exact node?_none_of_isSome_eq (hg1node _) hfresh
-  obtain ⟨c1, c2, c3, c4, c5, c6, c7, c8⟩ :=
-    createLinkGroup_spec { s with g := g1 } dn t tid iv (by rw [hg1node]; exact hdnnode) hg1none hfresh1
-  simp only [hg1nk] at c1 c2 c3 c4 c6 c8
-  generalize hs1 : createLinkGroup { s with g := g1 } dn t tid iv = s1 at h c1 c2 c3 c4 c5 c6 c7 c8
-  have hdata1 : dataOf s1 t = some d := by
-    unfold dataOf at hd ⊢
-    rw [c4 t "data" htdn htnk, hg1child_ne t "data" htdn, c7]
-    exact hd
-  have hkind1 : kindOf s1.g dn = kindOf s.g dn := by
-    unfold kindOf; rw [c6 dn _ hdnnk, hg1attr]
-  by_cases hfin : (kindOf s.g dn == kDimRange && s1.g.hasChild dn "ticks") = true
-  · simp only [hfin, ↓reduceIte] at h
-    have hs' := (Except.ok.inj h).symm
-    subst hs'
-    refine ⟨⟨s.g.nextKey, tid, ?_, ?_, c3⟩, hci, ⟨d, rfl, hrank, ?_⟩, ?_, ?_, ?_, ?_, ?_⟩
-    · show (s1.g.delLink dn "ticks").child? dn "link" = _
-      rw [child?_delLink_name_ne _ _ _ (by decide)]; exact c1
-    · show ((s1.g.delLink dn "ticks").links s.g.nextKey)[0]? = _
-      rw [links_delLink_ne _ _ (Ne.symm hdnnk), c2]; rfl
-    · unfold dataOf at hdata1 ⊢
-      show ((s1.g.delLink dn "ticks").child? t "data").bind (look s1.data) = _
-      rw [child?_delLink_ne _ _ htdn]; exact hdata1
-    · intro _
-      show (s1.g.delLink dn "ticks").hasChild dn "ticks" = false
-      rw [hasChild_eq, child?_delLink_self]; rfl
-    · show kindOf (s1.g.delLink dn "ticks") dn = _
-      unfold kindOf; rw [getAttr_delLink]; exact hkind1
-    · intro k m h1 h2
-      show (s1.g.delLink dn "ticks").child? k m = _
-      rw [child?_delLink_ne _ _ h1, c4 k m h1 h2, hg1child_ne k m h1]
-    · intro k h2
-      show kindOf (s1.g.delLink dn "ticks") k = _
-      unfold kindOf; rw [getAttr_delLink, c6 k _ h2, hg1attr]
-    · show kindOf (s1.g.delLink dn "ticks") s.g.nextKey = _
-      unfold kindOf; rw [getAttr_delLink, c8]; rfl
-  · simp only [hfin, Bool.false_eq_true, ↓reduceIte] at h
-    have hs' := (Except.ok.inj h).symm
-    subst hs'
-    refine ⟨⟨s.g.nextKey, tid, c1, by rw [c2]; rfl, c3⟩, hci, ⟨d, rfl, hrank, hdata1⟩, ?_, hkind1, ?_, ?_, ?_⟩
-    · intro hr
-      rw [hr] at hfin
-      simpa using hfin
-    · intro k m h1 h2
-      rw [c4 k m h1 h2, hg1child_ne k m h1]
-    · intro k h2
-      unfold kindOf; rw [c6 k _ h2, hg1attr]
-    · unfold kindOf; rw [c8]; rfl
+  obtain ⟨a1, a2, a3, a4, a5, a6, a7, _⟩ := attachLink_spec s dn t tid "DataArray" iv hk hfresh
+  refine ⟨a1, hci, ⟨d, rfl, hrank, ?_⟩, a2, a3, a4, a5, a6⟩
+  unfold dataOf at hd ⊢
+  rw [a4 t "data" htdn htnk, a7]
+  exact hd
+
+/-- what an accepted `link_data_frame` leaves behind: the descriptor is linked to the frame node `t`
+with the one-element index `[c]`, `c` a column of the frame; the frame's content is untouched -/
+theorem linkDataFrame_linked {s s' : DState} {p : Path} {i t dn : Nat} {c : Int}
+    (h : linkDataFrame s p i t c = .ok s') (hdn : dimAt s p i = .ok dn)
+    (hk : kindOf s.g dn = kDimRange ∨ kindOf s.g dn = kDimSet)
+    (hfresh : s.g.node? s.g.nextKey = none) :
+    LinkedAs s' dn t "DataFrame" [c] ∧
+      (∃ fd, frameOf s t = some fd ∧ 0 ≤ c ∧ c.toNat < fd.cols.length ∧ frameOf s' t = some fd) ∧
+      (kindOf s.g dn = kDimRange → s'.g.hasChild dn "ticks" = false) ∧
+      kindOf s'.g dn = kindOf s.g dn ∧
+      (∀ k m, k ≠ dn → k ≠ s.g.nextKey → s'.g.child? k m = s.g.child? k m) ∧
+      (∀ k, k ≠ s.g.nextKey → kindOf s'.g k = kindOf s.g k) ∧
+      kindOf s'.g s.g.nextKey = "" := by
+  unfold linkDataFrame at h
+  simp only [hdn] at h
+  have hns : (kindOf s.g dn == kDimSample) = false := by
+    rcases hk with e | e <;> rw [e] <;> decide
+  simp only [hns, Bool.false_eq_true, ↓reduceIte] at h
+  have hc0 : 0 ≤ c := Classical.byContradiction fun hc => by
+    have : c < 0 := Int.lt_of_not_ge hc
+    simp [this] at h
+  have hc0' : ¬ c < 0 := Int.not_lt.mpr hc0
+  simp only [hc0', ↓reduceIte] at h
+  have hkt : kindOf s.g t = "data_frame" := Classical.byContradiction fun hc => by simp [hc] at h
+  simp only [hkt, bne_self_eq_false, Bool.false_eq_true, ↓reduceIte] at h
+  cases hf : frameOf s t with
+  | none => simp [hf] at h
+  | some fd =>
+  cases hid : s.g.entityId t with
+  | none => simp [hf, hid] at h
+  | some tid =>
+  simp only [hf, hid] at h
+  have hc1 : c < (fd.cols.length : Int) := Classical.byContradiction fun hc => by
+    have : (fd.cols.length : Int) ≤ c := Int.le_of_not_gt hc
+    simp [this] at h
+  have hc1' : ¬ c ≥ (fd.cols.length : Int) := Int.not_le.mpr hc1
+  simp only [hc1', ↓reduceIte] at h
+  have hs' := (Except.ok.inj h).symm
+  subst hs'
+  have htnode : (s.g.node? t).isSome := by
+    apply kindOf_ne_empty_node; rw [hkt]; decide
+  have htdn : t ≠ dn := by
+    intro e; rw [e] at hkt
+    rcases hk with e' | e' <;> rw [e'] at hkt <;> revert hkt <;> decide
+  have htnk : t ≠ s.g.nextKey := by
+    intro e; rw [e, hfresh] at htnode; simp at htnode
+  obtain ⟨a1, a2, a3, a4, a5, a6, _, a8⟩ := attachLink_spec s dn t tid "DataFrame" [c] hk hfresh
+  refine ⟨a1, ⟨fd, rfl, hc0, ?_, ?_⟩, a2, a3, a4, a5, a6⟩
+  · omega
+  · unfold frameOf at hf ⊢
+    rw [a4 t "data" htdn htnk, a8]
+    exact hf
 
 /-- what an accepted `dim.ticks = ts` leaves behind -/
 theorem setTicks_spec {s s' : DState} {p : Path} {i dn : Nat} {ts : List Rat}
@@ -461,6 +572,100 @@ theorem excl_linkDataArray {s s' : DState} {p : Path} {i t : Nat} {iv : List Int
         intro e; rw [e, h8] at hk'; revert hk'; decide
       exact ⟨by rw [← h7 k hknk]; exact hk', h6 k _ hk hknk, h6 k _ hk hknk⟩
 
+/-- (the descriptor addressed is a range, set or sampled dimension — the three kinds there are) -/
+theorem excl_linkDataFrame {s s' : DState} {p : Path} {i t : Nat} {c : Int} (hex : Excl s)
+    (hfresh : s.g.node? s.g.nextKey = none)
+    (hkinds : ∀ dn, dimAt s p i = .ok dn →
+      kindOf s.g dn = kDimRange ∨ kindOf s.g dn = kDimSet ∨ kindOf s.g dn = kDimSample)
+    (h : linkDataFrame s p i t c = .ok s') : Excl s' := by
+  cases hdn : dimAt s p i with
+  | error e => simp [linkDataFrame, hdn] at h
+  | ok dn =>
+    have hk : kindOf s.g dn = kDimRange ∨ kindOf s.g dn = kDimSet := by
+      rcases hkinds dn hdn with e | e | e
+      · exact Or.inl e
+      · exact Or.inr e
+      · simp [linkDataFrame, hdn, e] at h
+    obtain ⟨_, _, h4, h5, h6, h7, h8⟩ := linkDataFrame_linked h hdn hk hfresh
+    apply excl_of_frame dn hex
+    · intro hr
+      rw [h5] at hr
+      rw [h4 hr]; simp
+    · intro k hk hk'
+      have hknk : k ≠ s.g.nextKey := by
+        intro e; rw [e, h8] at hk'; revert hk'; decide
+      exact ⟨by rw [← h7 k hknk]; exact hk', h6 k _ hk hknk, h6 k _ hk hknk⟩
+
+/-! ### data frames -/
+
+theorem frameAt_ok {s : DState} {q : Path} {f : Nat} (h : frameAt s q = .ok f) :
+    ∃ l, resolve s.g rootLoc q = some l ∧ l.key = f ∧ kindOf s.g f = "data_frame" := by
+  unfold frameAt at h
+  cases hr : resolve s.g rootLoc q with
+  | none => simp [hr] at h
+  | some l =>
+    simp only [hr] at h
+    split at h
+    · next hk => exact ⟨l, rfl, Except.ok.inj h, by rw [← Except.ok.inj h]; simpa using hk⟩
+    · cases h
+
+/-- the rows after `write_column(vals, index=c)` -/
+def setColumn (fd : FrameData) (c : Nat) (vals : List Rat) : FrameData :=
+  { fd with rows := (fd.rows.zip vals).map fun rv => rv.1.set c rv.2 }
+
+theorem writeColumn_ok {s s' : DState} {q : Path} {c : Nat} {vals : List Rat} (h : writeColumn s q c vals = .ok s') :
+    ∃ f ds fd, frameAt s q = .ok f ∧ s.g.child? f "data" = some ds ∧ look s.frames ds = some fd ∧
+      vals.length = fd.rows.length ∧ c < fd.cols.length ∧
+      s' = { s with frames := put s.frames ds (setColumn fd c vals) } := by
+  unfold writeColumn at h
+  cases hf : frameAt s q with
+  | error e => simp [hf] at h
+  | ok f =>
+    simp only [hf] at h
+    cases hds : s.g.child? f "data" with
+    | none => simp [hds] at h
+    | some ds =>
+      simp only [hds] at h
+      cases hd : look s.frames ds with
+      | none => simp [hd] at h
+      | some fd =>
+        simp only [hd] at h
+        split at h
+        · cases h
+        · next h1 =>
+          split at h
+          · cases h
+          · next h2 =>
+            refine ⟨f, ds, fd, rfl, hds, hd, by simpa using h1, by omega, (Except.ok.inj h).symm⟩
+
+theorem excl_writeColumn {s s' : DState} {q : Path} {c : Nat} {vals : List Rat} (hex : Excl s)
+    (h : writeColumn s q c vals = .ok s') : Excl s' := by
+  obtain ⟨_, _, _, _, _, _, _, _, hs'⟩ := writeColumn_ok h
+  subst hs'
+  exact hex
+
+/-- the written column reads back as the values written (every row has a cell in column `c`) -/
+theorem column_setColumn (fd : FrameData) (c : Nat) (vals : List Rat) (hl : vals.length = fd.rows.length)
+    (hc : ∀ r ∈ fd.rows, c < r.length) : column (setColumn fd c vals) c = .ok vals := by
+  unfold column setColumn
+  simp only
+  generalize fd.rows = rows at hl hc
+  induction rows generalizing vals with
+  | nil =>
+    cases vals with
+    | nil => rfl
+    | cons v vs => simp at hl
+  | cons r rs ih =>
+    cases vals with
+    | nil => simp at hl
+    | cons v vs =>
+      have hr : (r.set c v)[c]? = some v := by
+        rw [List.getElem?_set_self]
+        exact hc r (by simp)
+      have := ih vs (by simpa using hl) (fun r' hr' => hc r' (by simp [hr']))
+      simp only [List.zip_cons_cons, List.map_cons, List.mapM_cons, hr, this]
+      rfl
+
 theorem excl_writeData {s s' : DState} {q : Path} {vals : List Rat} (hex : Excl s)
     (h : writeData s q vals = .ok s') : Excl s' := by
   obtain ⟨_, _, _, _, _, _, hs'⟩ := writeData_ok h
@@ -520,7 +725,15 @@ theorem excl_setDimAttr {s s' : DState} {p : Path} {i : Nat} {attr : String} {v 
       · cases h
       · split at h
         · split at h
-          · have hs' := (Except.ok.inj h).symm; subst hs'; exact key _
+          · split at h
+            · split at h
+              · cases h
+              · split at h
+                · split at h
+                  · have hs' := (Except.ok.inj h).symm; subst hs'; exact hex
+                  · cases h
+                · cases h
+            · have hs' := (Except.ok.inj h).symm; subst hs'; exact key _
           · cases h
         · have hs' := (Except.ok.inj h).symm; subst hs'; exact key _
 
